@@ -364,6 +364,21 @@ fn main() {
                     break;
                 }
                 let mut rng = Rng::new(seed.wrapping_mul(1_000_003).wrapping_add(i as u64));
+                if prop == "C12" && i % 8 == 7 {
+                    // the async dispatcher runs its thread-local systems inside wait(), on the calling thread, once per wait
+                    let c = asyncd::generate(&mut rng);
+                    if let Ok(Some(why)) = catch_unwind(AssertUnwindSafe(|| asyncd::run(&c))) {
+                        if why.contains("thread-local") {
+                            let text = format!("# property=C12\n# found-by=bounded search of the real crate (async dispatcher call sequences; seed {}, case {})\n# failure: {}\n{}", seed, i, why.replace('\n', " "), c.to_text());
+                            std::fs::write(&out, text).expect("cannot write the replay file");
+                            println!("FAIL {}", why.replace('\n', " "));
+                            println!("explored={} skipped={}", explored, skipped);
+                            std::process::exit(1);
+                        }
+                    }
+                    explored += 1;
+                    continue;
+                }
                 let sh = shape_for(&prop, i);
                 let case = generate(&mut rng, sh);
                 if !sh.ill_formed && !well_formed(&case) {
@@ -496,6 +511,18 @@ fn main() {
                     Err(e) => {
                         println!("ERROR cannot parse {}: {}", file, e);
                         std::process::exit(2);
+                    }
+                }
+            }
+            if prop == "C12" && text.lines().any(|l| l.trim_start().starts_with("a ")) {
+                match asyncd::ACase::from_text(&text).map(|c| asyncd::run(&c)) {
+                    Ok(Some(w)) if w.contains("thread-local") => {
+                        println!("FAIL {}", w);
+                        std::process::exit(1);
+                    }
+                    _ => {
+                        println!("HOLDS");
+                        std::process::exit(0);
                     }
                 }
             }
